@@ -174,6 +174,11 @@ func TestBounded_C12(t *testing.T) {
 						}
 						var callErr error
 						panicked := bSafely(func() string { callErr = c.run(m); return "" })
+						reached := count >= n
+						if fault == "load" {
+							l, _ := st.counts()
+							reached = l >= n
+						}
 						st.reset()
 						fail = false
 						cases++
@@ -183,7 +188,19 @@ func TestBounded_C12(t *testing.T) {
 							break
 						}
 						if callErr == nil {
-							break // the fault was not reached: the call needs fewer than n such steps
+							if !reached {
+								break // the call needs fewer than n such steps
+							}
+							// the failing step was tolerated by the call (a lookahead whose failure
+							// is not an error): its result must then be the normal one
+							m2 := bCopyModel(model)
+							if c.after != nil {
+								c.after(m2)
+							}
+							if msg := bCompare(m, m2, univ); msg != "" {
+								bViolation(t, "C12", "swallowed-"+callWord(c.name)+"-"+fault, "%s\nreturned no error, and afterwards: %s", desc, msg)
+							}
+							continue
 						}
 						if !errors.Is(callErr, errInjected) && !strings.Contains(callErr.Error(), errInjected.Error()) {
 							// some other error: not the injected one
